@@ -89,6 +89,7 @@ def run(ctx):
         name = FAMS[i % len(FAMS)]
         n = r.randint(1, nmax)
         fam, rows = families.build(r, name, n, floats=r.random() < 0.25)
+        n = len(rows)
         desc = dict(fam.describe(), rows=rows.tolist())
         est = fam.make()
         # a history: optional first fit on a prefix, partial_fit batches, optional later fit
